@@ -249,6 +249,12 @@ def exprsVars : List Expr → List String
   | [] => []
   | e :: es => e.vars ++ exprsVars es
 
+/-- grouping keys that are bare variables -/
+def bareVars : List Expr → List String
+  | [] => []
+  | .var x :: es => x :: bareVars es
+  | _ :: es => bareVars es
+
 /-- what a projection / return list reports: its aliases and its bare (unaliased) variables -/
 def handedOn : List Item → List String
   | [] => []
@@ -259,9 +265,9 @@ def handedOn : List Item → List String
 /-- `collect_output_variables_recursive` (after cc52572). A chained `NodeScan` hands on what its
 input binds; `Project` and `Return` report exactly their aliases and bare variables and are not
 descended into; a semi/anti join reports its left side only. Still an approximation: `Aggregate`
-reports the variables of its grouping expressions (not the generated column names), an `Expand`
-does not report its path-length column, unaliased computed items and operators outside the list
-(`LeftJoin`, `Unwind`, `ShortestPath`, …) report nothing. -/
+reports its grouping keys that are bare variables and its aliases, an `Expand` does not report its
+path-length column, unaliased computed items and operators outside the list (`LeftJoin`, `Unwind`,
+`ShortestPath`, …) report nothing (`outputsKnown` tells whether such an operator is present). -/
 def outVars : Plan → List String
   | .scan v _ => [v]
   | .scanIn v _ i => v :: outVars i
@@ -278,8 +284,25 @@ def outVars : Plan → List String
   | .skip _ i => outVars i
   | .sort _ i => outVars i
   | .distinct _ i => outVars i
-  | .agg gb aggs _ _ => exprsVars gb ++ aggAliases aggs
+  | .agg gb aggs _ _ => bareVars gb ++ aggAliases aggs
   | .other _ _ _ => []
+
+/-- `outputs_known`: does `collect_output_variables` know every operator of this tree?
+(`Project`, `Return`, `Aggregate` report their own lists and are not entered) -/
+def outputsKnown : Plan → Bool
+  | .scan _ _ => true
+  | .scanIn _ _ i => outputsKnown i
+  | .expand _ i => outputsKnown i
+  | .filter _ i => outputsKnown i
+  | .project _ _ => true
+  | .ret _ _ _ => true
+  | .agg _ _ _ _ => true
+  | .join _ _ l r => outputsKnown l && outputsKnown r
+  | .limit _ i => outputsKnown i
+  | .skip _ i => outputsKnown i
+  | .sort _ i => outputsKnown i
+  | .distinct _ i => outputsKnown i
+  | .other _ _ _ => false
 
 def usesAny (vs : List String) (side : List String) : Bool := vs.any (fun v => side.contains v)
 
@@ -294,13 +317,15 @@ def containsSubquery : Expr → Bool
   | .argCons e r => containsSubquery e || containsSubquery r
   | _ => false
 
-/-- `passes_through`: some item is the bare variable `v` (not renamed) or `*`, and no other item is
-named `v` by an alias -/
+/-- `passes_through`: some item is the bare variable `v` (not renamed) or `*`, no other item is
+named `v` by an alias, and no item is an unaliased computed expression (its generated column name
+is not known to the optimizer) -/
 def passesThrough (items : List Item) (v : String) : Bool :=
   let star := items.any (fun it => it.1 == .var "*")
   let handed := items.any (fun it => it.1 == .var v && (it.2 == none || it.2 == some v))
   let shadowed := items.any (fun it => it.2 == some v && it.1 != .var v)
-  (handed || star) && !shadowed
+  let unnamed := items.any (fun it => it.2 == none && !(match it.1 with | .var _ => true | _ => false))
+  (handed || star) && !shadowed && !unnamed
 
 /-- join types whose left input survives a filter on left columns / right input likewise
 (`left_preserved`, `right_preserved`) -/
@@ -316,11 +341,11 @@ def rightPushTypes (ty : JoinType) : Bool :=
 
 def pushesLeft (pred : Expr) (ty : JoinType) (l r : Plan) : Bool :=
   usesAny pred.vars (outVars l) && !usesAny pred.vars (outVars r) && allIn pred.vars (outVars l)
-    && leftPushTypes ty
+    && (outputsKnown l && outputsKnown r && leftPushTypes ty)
 
 def pushesRight (pred : Expr) (ty : JoinType) (l r : Plan) : Bool :=
   usesAny pred.vars (outVars r) && !usesAny pred.vars (outVars l) && allIn pred.vars (outVars r)
-    && rightPushTypes ty
+    && (outputsKnown l && outputsKnown r && rightPushTypes ty)
 
 /-! ### filter push-down, as coded -/
 
@@ -736,29 +761,21 @@ def noOver (q : Plan) : Bool := (outVars q).all (fun v => (cols q).contains v)
 /-- every column is reported by `outVars` -/
 def noUnder (q : Plan) : Bool := (cols q).all (fun v => (outVars q).contains v)
 
-/-- no `*` item, and no unaliased computed item whose generated column name (`expr`, `f(...)`,
-`x.k`, …) is the name of a variable the same list hands on bare -/
-def itemsClean (items : List Item) : Bool :=
-  items.all (fun it => it.1 != .var "*") &&
-  items.all (fun it => it.2.isSome || (it.1 == .var (itemName it)) ||
-    !items.any (fun jt => jt.1 == .var (itemName it)))
+/-- no `*` item (`passes_through` lets every variable through one; the binder rejects it) -/
+def noStar (items : List Item) : Bool := items.all (fun it => it.1 != .var "*")
 
-/-- an `Aggregate` reports the variables of its grouping expressions; this asks that they all be
-columns of it (true when every grouping expression is a bare variable) -/
-def aggExact (gb : List Expr) (aggs : List AggSpec) : Bool :=
-  (exprsVars gb).all (fun v => (gb.map (fun e => itemName (e, none)) ++ aggs.map aggName).contains v)
+def disjointCols (xs ys : List String) : Bool := xs.all (fun v => !ys.contains v)
 
-/-- plan-wide sufficient condition for `wfPush`. After cc52572 `outVars` over-reports only at
-`Aggregate`s with a computed grouping expression (`aggExact` excludes them; everything else is
-*proved* not to over-report: `noOver_of_wfScope`). What has to be assumed besides: no under-report
-in a join's left input (`noUnder`), clean projection lists (`itemsClean`). -/
+/-- plan-wide sufficient condition for `wfPush`, all that is left to assume: no `*` item in a
+projection list, and at every join either the left input has no column that `outVars` does not
+report (path-length column, generated name of an unaliased computed item or aggregate) or the two
+inputs have no column name in common. Chained scans are not entered: neither is the rewrite. -/
 def wfScope : Plan → Bool
   | .expand _ i => wfScope i
-  | .join _ _ l r => noUnder l && wfScope l && wfScope r
-  | .project items i => itemsClean items && wfScope i
-  | .ret _ items i => itemsClean items && wfScope i
-  | .agg gb aggs _ i => aggExact gb aggs && wfScope i
-  | .scanIn _ _ i => wfScope i
+  | .join _ _ l r => (noUnder l || disjointCols (cols l) (cols r)) && wfScope l && wfScope r
+  | .project items i => noStar items && wfScope i
+  | .ret _ items i => noStar items && wfScope i
+  | .agg _ _ _ i => wfScope i
   | .filter _ i => wfScope i
   | .limit _ i => wfScope i
   | .skip _ i => wfScope i
